@@ -131,6 +131,17 @@ def reference_digest(data):
 # Configuration and workload generation (all from one PRNG, before execution starts)
 # ---------------------------------------------------------------------------------------
 
+EXOTIC_GARBAGE = [
+    b'cnosuchmodule\nX\n.',                                      # ModuleNotFoundError
+    b'cos\nnosuchattr\n.',                                       # AttributeError
+    b'I12x\n.',                                                  # ValueError
+    b'\x80\x04\x8c\x05\xff\xfe\xfd\xfc\xfb.',                      # UnicodeDecodeError
+    b'cbuiltins\nlen\n(tR.',                                     # TypeError
+    b'\x80\x04\x8e\xff\xff\xff\xff\xff\xff\xff\x7fabc',             # OverflowError
+    b'\x80\x04cbuiltins\ngetattr\n(K\x01\x8c\x01xtR.',            # AttributeError from a reduce
+    b'\x80\x04h\x05.',                                           # UnpicklingError (memo)
+]
+
 FAMILIES = ('sched', 'crash', 'oserr', 'midmod')
 
 
@@ -179,7 +190,7 @@ def gen_workload(rng, cfg, thorough):
                     files = sorted(rng.sample(range(len(LIBFILES) + 1), rng.randint(1, 3)))
                     env.append(['upgrade', rng.choice(['mtime', 'mtime', 'add', 'remove', 'older']), files])
                 elif r < 0.88:
-                    kind = rng.choice(['truncate', 'truncate', 'zeros', 'ff', 'text', 'empty'])
+                    kind = rng.choice(['truncate', 'truncate', 'zeros', 'ff', 'text', 'empty', 'exotic'])
                     env.append(['damage', key, kind, rng.random()])
                 elif r < 0.94:
                     env.append(['del_stamp'])
@@ -570,6 +581,10 @@ class CacheSim(object):
                 node.data[:] = b'\0' * max(1, int(n * frac))
             elif how == 'ff':
                 node.data[:] = b'\xff' * max(1, int(n * frac))
+            elif how == 'exotic':
+                # byte strings on which the unpickler fails with something other than
+                # UnpicklingError/EOFError (a class that moved, a bad literal, bad UTF-8, ...)
+                node.data[:] = EXOTIC_GARBAGE[int(frac * len(EXOTIC_GARBAGE)) % len(EXOTIC_GARBAGE)]
             elif how == 'text':
                 node.data[:] = (b'this is not a pickle\n' * 50)[:max(1, int(n * frac))]
             node.mtime_ns = fs.stamp()
